@@ -34,6 +34,7 @@ fn run_check(id: &str, cfg: &RunCfg) -> Option<Report> {
         "C05" => checks::c05::run(cfg),
         "C06" => checks::hist::run(cfg, &checks::hist::C06),
         "C07" => checks::hist::run(cfg, &checks::hist::C07),
+        "C09" => checks::c09::run(cfg),
         "C15" => checks::hist::run(cfg, &checks::hist::C15),
         "C16" => checks::codec::run(cfg, false),
         "C17" => checks::codec::run(cfg, true),
@@ -51,6 +52,7 @@ fn replay_check(id: &str, v: &serde_json::Value) -> Option<Result<(), String>> {
         "C05" => checks::c05::replay(v),
         "C06" => checks::hist::replay(&checks::hist::C06, v),
         "C07" => checks::hist::replay(&checks::hist::C07, v),
+        "C09" => checks::c09::replay(v),
         "C15" => checks::hist::replay(&checks::hist::C15, v),
         "C16" => checks::codec::replay(v, false),
         "C17" => checks::codec::replay(v, true),
